@@ -23,6 +23,17 @@ pub fn actor_main(id: &str) -> i32 {
         }
     };
     log(format!("start {id}\n"));
+    // what link files lay in the working directory when the command started (an earlier inspection's link is
+    // dumped there by the verifier): one line, sorted
+    {
+        let mut seen: Vec<String> = std::fs::read_dir(".")
+            .map(|d| d.filter_map(|e| e.ok()).filter_map(|e| e.file_name().into_string().ok()).filter(|n| n.ends_with(".link")).collect())
+            .unwrap_or_default();
+        seen.sort();
+        if !seen.is_empty() {
+            log(format!("saw {id} {}\n", seen.join(" ")));
+        }
+    }
     for op in &script.ops {
         match op {
             FsOp::Write { path, content } => {
